@@ -102,7 +102,7 @@ class BaseProtocol(asyncio.Protocol):
         try:
             for opcode, data in self.unpacker:
                 if self.message_received(opcode, data):
-                    break
+                    return True
         except ProtocolException as e:
             # Can't recover from a protocol decoding error, so drop connection
             self.protocol_error(str(e))
